@@ -39,7 +39,7 @@ KEYS = ["flux", "bound_flux", "bound_pressure_cell", "bound_pressure_face", "vec
 RULE = ("grids: CartGrid / TensorGrid (non-uniform rational coordinates) / StructuredTriangleGrid / StructuredTetrahedralGrid in 1-3 D, "
         "2-D Cartesian grids split by a fracture (internal boundary faces), 0-d point grids; optionally mapped by a rational affine map "
         "(sheared, K-orthogonal family with K = J K0 J^T), rotated out of the coordinate planes by a rational rotation, or with rationally "
-        "perturbed nodes; tensors isotropic / diagonal / full SPD, constant or cell-wise, small rationals; every boundary face gets "
+        "perturbed nodes; tensors isotropic / diagonal / full SPD, constant or cell-wise, small rationals times 2^k with k in [-53, 27] (1e-16 .. 1e+8, 30% k = 0), node coordinates times 2^m, m in [-10, 10] (60% m = 0); every boundary face gets "
         "dir / neu (a small share rob; occasionally dir on a fracture face); ambient_dimension 1-3 or default. "
         "non-trivial = at least 2 cells, at least one Dirichlet and one Neumann face; distinct = distinct case descriptions")
 TRUSTED = [
@@ -54,7 +54,7 @@ EXPLANATION = ("FULL for the formula: the model is Tpfa.discretize over Q (half 
                "well-formed grids with positive half transmissibilities, exactness of interior / Dirichlet / Neumann fluxes and of the boundary "
                "pressure reconstruction for affine pressures under K-orthogonality. Partial: binary64 rounding and the numpy glue are bridged by "
                "the correspondence check (tolerance 1e-10, sparsity patterns exact); agreement with MPFA is checked by the oracle only.")
-ASSUMPTIONS = ["class T comparison (1e-10) of matrix values; sparsity patterns, shapes, formats and dictionary keys are compared exactly",
+ASSUMPTIONS = ["class T comparison of matrix values, relative: |impl - model| <= 1e-10 * max(|model|, 1e-4 * largest entry of that matrix) (bound_pressure_face: 1e-9 per entry); oracle tolerances are relative to max |K| |n| / |d|; sparsity patterns, shapes, formats and dictionary keys are compared exactly",
                "boundary faces have exactly one neighbouring cell (grid invariant, C21)"]
 
 _skipped_degenerate = [0]
@@ -114,7 +114,7 @@ def gen_case(rng, tier):
     r = rng.random()
     if r < 0.03:
         return {"kind": "point", "dim": 0, "nx": [], "K": {"mode": "iso", "vals": [[frac(x) for x in _spd(rng, "iso")]]}, "bc": [],
-                "vsd": rng.choice([None, 0, 1, 2, 3]), "J": None, "perturb": [], "mpfa": False}
+                "vsd": rng.choice([None, 0, 1, 2, 3]), "J": None, "perturb": [], "mpfa": False, "kscale": 0, "gscale": 0}
     kind = rng.choice(["cart", "cart", "tensor", "tensor", "tri", "tet", "frac", "cart1", "tensor1"])
     case = {"kind": kind, "J": None, "perturb": [], "coords": None, "frac": None}
     if kind in ("cart1", "tensor1"):
@@ -235,6 +235,10 @@ def gen_case(rng, tier):
     case["frac_dir"] = kind == "frac" and rng.random() < 0.25  # allow 'dir' to land on fracture faces
     case["vsd"] = rng.choice([None, None, 1, 2, 3])
     case["mpfa"] = rng.random() < (0.8 if not big else 0.35)
+    # magnitude: the tensor is multiplied by 2^kscale (1e-16 .. 1e+8, e.g. SI permeabilities), the node coordinates by
+    # 2^gscale (1e-3 .. 1e+3); powers of two keep every binary64 value (hence the rational model input) exact
+    case["kscale"] = 0 if rng.random() < 0.3 else rng.randint(-53, 27)
+    case["gscale"] = 0 if (rng.random() < 0.6 or kind == "frac") else rng.randint(-10, 10)
     if case["perturb"]:
         try:  # a perturbation that inverts a cell is not an input of interest: fall back to the unperturbed grid
             g = _build(case)[0]
@@ -278,7 +282,7 @@ def _build(case):
         return _cache[key]
     import porepy as pp
     g = _base_grid(case)
-    if case.get("J") or case.get("perturb"):
+    if case.get("J") or case.get("perturb") or case.get("gscale"):
         nodes = [[Fraction(float(x)) for x in col] for col in g.nodes.T]
         for p in case.get("perturb") or []:
             i = p[0]
@@ -286,11 +290,13 @@ def _build(case):
         if case.get("J"):
             J = [[Fraction(x) for x in row] for row in case["J"]]
             nodes = [[sum(J[r][m] * nd[m] for m in range(3)) for r in range(3)] for nd in nodes]
-        g.nodes = np.array([[float(x) for x in nd] for nd in nodes]).T.copy()
+        gs = Fraction(2) ** int(case.get("gscale") or 0)
+        g.nodes = np.array([[float(x * gs) for x in nd] for nd in nodes]).T.copy()
     with warnings.catch_warnings():
         warnings.simplefilter("ignore")
         g.compute_geometry()
-    v = np.array([[float(Fraction(x)) for x in row] for row in case["K"]["vals"]])
+    ks = Fraction(2) ** int(case.get("kscale") or 0)
+    v = np.array([[float(Fraction(x) * ks) for x in row] for row in case["K"]["vals"]])
     if v.shape[0] != g.num_cells:
         raise ValueError("tensor / cell count mismatch")
     k = pp.SecondOrderTensor(kxx=v[:, 0], kyy=v[:, 1], kzz=v[:, 2], kxy=v[:, 3], kxz=v[:, 4], kyz=v[:, 5])
@@ -409,9 +415,15 @@ def compare(impl, model, case):
         for ta, tb in zip(a["t"], b["t"]):
             if ta[2] in ("nan", "inf"):
                 return f"{key}[{ta[0]},{ta[1]}]: impl {ta[2]} vs model {tb[2]}"
-        d = deep_compare([t[2] for t in a["t"]], [t[2] for t in b["t"]], key, tol=TOL)
-        if d:
-            return d
+        # class T, RELATIVE to the natural scale of the matrix (its largest model entry, ~ |K| area / distance for the flux
+        # matrices): |impl - model| <= TOL * max(|model|, 1e-4 * scale); bound_pressure_face mixes 1 and -1/t: per entry
+        vb = [Fraction(t[2]) for t in b["t"]]
+        scale = max((abs(x) for x in vb), default=Fraction(0))
+        floor = Fraction(0) if key == "bound_pressure_face" else scale / 10000
+        rt = Fraction(1, 10 ** 9) if key == "bound_pressure_face" else Fraction(1, 10 ** 10)
+        for ta, x in zip(a["t"], vb):
+            if abs(Fraction(ta[2]) - x) > rt * max(abs(x), floor):
+                return f"{key}[{ta[0]},{ta[1]}]: impl {float(Fraction(ta[2]))!r} vs model {float(x)!r} (relative tol {float(rt)}, matrix scale {float(scale)!r})"
     if impl["keys"] != m["keys"]:
         return f"matrix dictionary keys {impl['keys']} vs {m['keys']}"
     if impl["formats"] != m["formats"]:
@@ -455,8 +467,20 @@ def oracle(case):
     F = flux.toarray()
     if not np.all(np.isfinite(F)) or not np.all(np.isfinite(bflux.data)):
         return None  # vanishing half transmissibility: outside the property (no meaningful discretization)
-    scale = max(1.0, np.abs(F).max())
+    # natural scale of a transmissibility, from the INPUTS only: max |K_cell| |n| / |d| over half-faces; every tolerance
+    # below is relative to it (no absolute tolerances: tensors range over 1e-16 .. 1e+8)
+    cf0 = g.cell_faces.tocoo()
+    dd = np.linalg.norm(g.face_centers[:, cf0.row] - g.cell_centers[:, cf0.col], axis=0)
+    kmax = np.abs(k.values).max(axis=(0, 1))
+    with np.errstate(all="ignore"):
+        scale = float(np.max(kmax[cf0.col] * np.linalg.norm(g.face_normals[:, cf0.row], axis=0) / dd))
+    if not np.isfinite(scale) or scale <= 0:
+        return None
+    # rounding errors are proportional to the largest transmissibility actually present, which exceeds the natural scale
+    # only when a harmonic sum cancels (sheared grids with full tensors); both are proportional to |K|
+    scale = max(scale, float(np.abs(F).max()))
     tol = 1e-9 * scale
+    L = float(max(np.abs(g.nodes).max(), np.abs(g.face_centers).max()))  # length scale of the coordinates
     cf = g.cell_faces.tocsr()
     D = cf.toarray()
     has_rob = bool(bc.is_rob.any())
@@ -490,7 +514,7 @@ def oracle(case):
                 return {"what": f"constant pressure {c0} with matching Dirichlet data gives flux {q[f]!r} on face {f}", "key": "const-zero-flux"}
             pb = bpc @ (c0 * np.ones(nc)) + bpf @ vals
             bf = g.get_all_boundary_faces()
-            if bf.size and np.all(np.isfinite(pb)) and np.abs(pb[bf] - c0).max() > 1e-9 * abs(c0) * max(1.0, np.abs(bpf.data).max()):
+            if bf.size and np.all(np.isfinite(pb)) and np.abs(pb[bf] - c0).max() > 1e-9 * abs(c0):
                 f = int(bf[np.abs(pb[bf] - c0).argmax()])
                 return {"what": f"constant pressure {c0}: reconstructed boundary pressure {pb[f]!r} on face {f}", "key": "const-bound-pressure"}
     # 3b. hydrostatic consistency of the vector source (any grid, any K): p = a + G.x with vector source G in every cell
@@ -499,20 +523,20 @@ def oracle(case):
     if pure_bc and 1 <= vsd <= 3 and "vector_source" in M and np.abs(g.nodes[vsd:]).max(initial=0.0) == 0:
         Gv = np.array([1.5, -0.75, 2.0])
         Gv[vsd:] = 0
-        p = 0.25 + Gv @ g.cell_centers
-        pf = 0.25 + Gv @ g.face_centers
+        p = 0.25 * L + Gv @ g.cell_centers
+        pf = 0.25 * L + Gv @ g.face_centers
         vals = np.zeros(nf)
         vals[bc.is_dir] = pf[bc.is_dir]
         vs = np.tile(Gv[:vsd], nc)
         q = flux @ p + bflux @ vals + M["vector_source"] @ vs
-        sc = max(1.0, np.abs(flux).max() * max(1.0, np.abs(p).max()))
+        sc = scale * max(np.abs(p).max(), np.abs(pf).max())
         if np.abs(q).max() > 1e-9 * sc:
             f = int(np.abs(q).argmax())
             return {"what": f"hydrostatic pressure with matching vector source gives flux {q[f]!r} on face {f}", "key": "vector-source-hydrostatic"}
         pb = bpc @ p + bpf @ vals + M["bound_pressure_vector_source"] @ vs
         bf = g.get_all_boundary_faces()
         ext = bf[~bc.is_internal[bf] | bc.is_neu[bf]]
-        if ext.size and np.all(np.isfinite(pb)) and np.abs(pb - pf)[ext].max() > 1e-9 * max(1.0, np.abs(pf).max()):
+        if ext.size and np.all(np.isfinite(pb)) and np.abs(pb - pf)[ext].max() > 1e-9 * np.abs(pf).max():
             f = int(ext[np.abs(pb - pf)[ext].argmax()])
             return {"what": f"hydrostatic pressure: reconstructed boundary pressure {pb[f]!r} on face {f}, expected {pf[f]!r}", "key": "vector-source-bound-pressure"}
     cart_like, diag, const, korth = _classify(case, g, k)
@@ -547,11 +571,11 @@ def oracle(case):
             for key in ("flux", "bound_flux"):
                 a, b = M[key].toarray(), MM[key].toarray()
                 if a.shape != b.shape or np.abs(a - b).max() > 1e-8 * scale:
-                    return {"what": f"TPFA and MPFA {key} differ on a Cartesian/tensor grid with diagonal K (max diff {np.abs(a - b).max() if a.shape == b.shape else 'shape'})", "key": f"mpfa-{key}"}
+                    return {"what": f"TPFA and MPFA {key} differ on a Cartesian/tensor grid with diagonal K (max diff {np.abs(a - b).max() if a.shape == b.shape else 'shape'}, natural scale {scale!r})", "key": f"mpfa-{key}"}
     # 6. affine pressure with constant K on a K-orthogonal grid: exact fluxes and boundary pressures
     if korth and const and pure_bc:
         K0 = k.values[:, :, 0]
-        for a0, grad in ((0.5, np.array([1.0, -2.0, 0.75])), (-1.0, np.array([0.25, 3.0, -1.5]))):
+        for a0, grad in ((0.5 * L, np.array([1.0, -2.0, 0.75])), (-1.0 * L, np.array([0.25, 3.0, -1.5]))):
             p = a0 + grad @ g.cell_centers
             pf = a0 + grad @ g.face_centers
             exact = -(g.face_normals * (K0 @ grad)[:, None]).sum(axis=0)  # flux in the direction of the stored normal
@@ -564,7 +588,7 @@ def oracle(case):
             vals[neu] = (sgn * exact)[neu]  # Neumann data: outward flux
             interior_or_dir = ~(bc.is_neu | bc.is_internal)
             q = flux @ p + bflux @ vals
-            sc = max(1.0, np.abs(exact).max(), np.abs(flux).max() * np.abs(p).max())
+            sc = np.abs(exact).max() + scale * max(np.abs(p).max(), np.abs(pf).max())
             chk = np.ones(nf, dtype=bool)
             chk[bc.is_internal] = False  # internal (fracture) faces carry interface fluxes, not part of the claim
             if np.abs(q - exact)[chk].max() > 1e-9 * sc:
@@ -576,7 +600,7 @@ def oracle(case):
             if ext.size and not np.all(np.isfinite(pb[ext])):
                 f = int(ext[~np.isfinite(pb[ext])][0])
                 return {"what": f"K-orthogonal grid (positive half transmissibilities): reconstructed boundary pressure on face {f} is {pb[f]!r}", "key": "bound-pressure-not-finite"}
-            if ext.size and np.abs(pb - pf)[ext].max() > 1e-9 * max(1.0, np.abs(pf).max()) * max(1.0, np.abs(bpf.data).max()):
+            if ext.size and np.abs(pb - pf)[ext].max() > 1e-8 * np.abs(pf).max():
                 f = int(ext[np.abs(pb - pf)[ext].argmax()])
                 return {"what": f"affine pressure on a K-orthogonal grid: reconstructed boundary pressure {pb[f]!r} on face {f}, exact {pf[f]!r}", "key": "linear-exact-bound-pressure"}
     return None
@@ -630,6 +654,9 @@ def stats(cases, impl_outs):
             "bc": {"all_dir": cnt(lambda c: c["bc"] and set(c["bc"]) == {"dir"}), "all_neu": cnt(lambda c: c["bc"] and set(c["bc"]) == {"neu"}),
                    "with_rob": cnt(lambda c: "rob" in c["bc"]), "dir_on_fracture": cnt(lambda c: c.get("frac_dir"))},
             "ambient_dimension_set": cnt(lambda c: c.get("vsd") is not None),
+            "tensor_scale_log2": {"0": cnt(lambda c: not c.get("kscale")), "<-30": cnt(lambda c: (c.get("kscale") or 0) < -30),
+                                  "-30..-1": cnt(lambda c: -30 <= (c.get("kscale") or 0) < 0), ">0": cnt(lambda c: (c.get("kscale") or 0) > 0)},
+            "grid_scaled": cnt(lambda c: bool(c.get("gscale"))),
             "cells_min_max": [min(ncells), max(ncells)] if ncells else None,
             "impl_errors": sum(1 for o in impl_outs if isinstance(o, dict) and ("err" in o or "harness_exc" in o)),
             "skipped_degenerate": _skipped_degenerate[0]}
